@@ -10,7 +10,9 @@ import (
 	"runtime"
 	"strings"
 	"sync"
+	"time"
 
+	lucene "github.com/grindlemire/go-lucene"
 	"github.com/grindlemire/go-lucene/pkg/lucene/expr"
 )
 
@@ -19,6 +21,42 @@ import (
 // Built with -race by the check; a data race makes the process exit with GORACE's exit code.
 
 type rcase struct{ q, df string }
+
+// runLight: Parse, Validate, String, Render, RenderParam and the two public SQL entry points, on a private and on the shared tree
+func runLight(c rcase, shared *expr.Expression) []string {
+	res := []string{}
+	var e *expr.Expression
+	res = append(res, guard(func() string {
+		ex, err := parseWith(c.q, c.df)
+		if err == nil {
+			e = ex
+		}
+		if ex == nil {
+			return "nil" + errflag(err)
+		}
+		return "tree" + errflag(err)
+	}))
+	for _, x := range []*expr.Expression{e, shared} {
+		if x == nil {
+			continue
+		}
+		x := x
+		res = append(res, guard(func() string {
+			if err := expr.Validate(x); err != nil {
+				return "invalid:" + err.Error()
+			}
+			return "ok"
+		}), guard(func() string { return fmt.Sprint(len(x.String())) }),
+			guard(func() string { s, err := pg.Render(x); return fmt.Sprint(len(s)) + errflag(err) }),
+			guard(func() string { s, ps, err := pg.RenderParam(x); return fmt.Sprint(len(s), len(ps)) + errflag(err) }))
+	}
+	res = append(res, guard(func() string { s, err := lucene.ToPostgres(c.q); return fmt.Sprint(len(s)) + errflag(err) }),
+		guard(func() string {
+			s, ps, err := lucene.ToParameterizedPostgres(c.q)
+			return fmt.Sprint(len(s), len(ps)) + errflag(err)
+		}))
+	return res
+}
 
 func runAll(c rcase, shared *expr.Expression) []string {
 	res := observeQuery(c.q, c.df)[1:10] // parse, validate, String, GoString, Render, RenderParam, Marshal, ToPostgres, ToParameterizedPostgres
@@ -34,6 +72,13 @@ func runAll(c rcase, shared *expr.Expression) []string {
 	return res
 }
 
+func run(i, nLight int, c rcase, shared *expr.Expression) []string {
+	if i >= nLight {
+		return runLight(c, shared)
+	}
+	return runAll(c, shared)
+}
+
 func raceMain(args []string) {
 	fs := flag.NewFlagSet("race", flag.ExitOnError)
 	seed := fs.Int64("seed", 1, "seed")
@@ -42,6 +87,11 @@ func raceMain(args []string) {
 	rounds := fs.Int("rounds", 3, "rounds per goroutine")
 	fs.Parse(args)
 	rng = rand.New(rand.NewSource(*seed))
+	if s := os.Getenv("OBSERVE_TIMEOUT_MS"); s != "" {
+		var ms int
+		fmt.Sscan(s, &ms)
+		caseTimeout = time.Duration(ms) * time.Millisecond
+	}
 	out = bufio.NewWriter(os.Stdout)
 	defer out.Flush()
 	cases := []rcase{}
@@ -52,6 +102,30 @@ func raceMain(args []string) {
 		t := genTree(1+rng.Intn(3), rng.Intn(3) != 0)
 		cases = append(cases, rcase{join(t.words(func() bool { return rng.Intn(3) == 0 }), rng.Intn(3)), pick(dfChoices)})
 	}
+	// sizes: deep operator chains, deep parentheses, long chains, long value lists (with repeated values)
+	nScale := len(cases)
+	for _, d := range []int{65, 257} {
+		cases = append(cases, rcase{strings.Repeat("NOT ", d) + "a:b", ""}, rcase{strings.Repeat("(", d) + "a:b" + strings.Repeat(")", d), "d"},
+			rcase{strings.Repeat("-", d) + "x", "d"})
+	}
+	for _, n := range []int{65, 257} {
+		cases = append(cases, rcase{join(canonWords(listTree("f", listValues("int", n, 0))), 0), ""}, rcase{join(canonWords(listTree("f", listValues("pairs", n, 0))), 0), "d"})
+		parts := make([]string, n)
+		for i := range parts {
+			parts[i] = fmt.Sprintf("f%d:v%d", i, i)
+		}
+		cases = append(cases, rcase{strings.Join(parts, " AND "), ""}, rcase{strings.Join(parts, " "), ""})
+	}
+	scaleCases := []int{}
+	for i := nScale; i < len(cases); i++ {
+		scaleCases = append(scaleCases, i)
+	}
+	// heavy cases: only in the contention phase, and only through the entry points whose cost is linear in the size
+	// (the encoder and the %#v printer are not)
+	nLight := len(cases)
+	cases = append(cases, rcase{strings.Repeat("NOT ", 4097) + "a:b", ""}, rcase{strings.Repeat("(", 4097) + "a:b" + strings.Repeat(")", 4097), ""},
+		rcase{strings.Repeat("(", 8193) + "a:b" + strings.Repeat(")", 8193), ""})
+	cases = append(cases, rcase{join(canonWords(listTree("f", listValues("pairs", 70001, 0))), 0), ""})
 	// shared expressions and their snapshots
 	shared := make([]*expr.Expression, len(cases))
 	snap := make([]string, len(cases))
@@ -62,30 +136,41 @@ func raceMain(args []string) {
 			snap[i] = showExpr(e)
 		}
 	}
+	tPhase := time.Now()
+	phase := func(name string) {
+		fmt.Fprintf(os.Stderr, "phase %s: %v\n", name, time.Since(tPhase))
+		tPhase = time.Now()
+	}
 	// sequential baseline
 	base := make([][]string, len(cases))
 	for i, c := range cases {
-		base[i] = runAll(c, shared[i])
+		t0 := time.Now()
+		base[i] = run(i, nLight, c, shared[i])
+		if d := time.Since(t0); d > 2*time.Second {
+			fmt.Fprintf(os.Stderr, "slow case %d (%d bytes): %v\n", i, len(c.q), d)
+		}
 	}
+	phase("baseline")
 	// a second sequential pass in another order must agree already (state leaking between calls)
 	mism := []string{}
 	var mu sync.Mutex
 	report := func(kind string, i int, k int, got, want string) {
 		mu.Lock()
 		if len(mism) < 20 {
-			mism = append(mism, fmt.Sprintf("%s case=%d query=%q df=%q field=%d got=%.200s want=%.200s", kind, i, cases[i].q, cases[i].df, k, got, want))
+			mism = append(mism, fmt.Sprintf("%s case=%d query=%.300q (%d bytes) df=%q field=%d got=%.200s want=%.200s", kind, i, cases[i].q, len(cases[i].q), cases[i].df, k, got, want))
 		}
 		mu.Unlock()
 	}
 	order := rng.Perm(len(cases))
 	for _, i := range order {
-		r := runAll(cases[i], shared[i])
+		r := run(i, nLight, cases[i], shared[i])
 		for k := range r {
 			if r[k] != base[i][k] {
 				report("sequential-rerun-differs", i, k, r[k], base[i][k])
 			}
 		}
 	}
+	phase("rerun")
 	var wg sync.WaitGroup
 	calls := 0
 	for w := 0; w < *g; w++ {
@@ -94,7 +179,7 @@ func raceMain(args []string) {
 		go func() {
 			defer wg.Done()
 			for r := 0; r < *rounds; r++ {
-				for _, i := range lr.Perm(len(cases)) {
+				for _, i := range lr.Perm(nScale) {
 					if lr.Intn(4) == 0 {
 						runtime.Gosched()
 					}
@@ -110,6 +195,50 @@ func raceMain(args []string) {
 		calls += *rounds * len(cases)
 	}
 	wg.Wait()
+	phase("random-order")
+	// contention: all goroutines on the same case at the same moment, for every size case and a sample of the others
+	contended := append([]int{}, scaleCases...)
+	for i := nLight; i < len(cases); i++ {
+		if len(cases[i].q) < 100000 { // the giant list is run sequentially only (twice, on the shared tree)
+			contended = append(contended, i)
+		}
+	}
+	for i := 0; i < 40 && i < nScale; i++ {
+		contended = append(contended, rng.Intn(nScale))
+	}
+	for _, i := range contended {
+		tc := time.Now()
+		var wg2 sync.WaitGroup
+		start := make(chan struct{})
+		for w := 0; w < *g; w++ {
+			wg2.Add(1)
+			go func() {
+				defer wg2.Done()
+				<-start
+				iters := 1
+				if i < nScale {
+					iters = 2
+				} else if i >= nLight {
+					iters = 3
+				}
+				for r := 0; r < iters; r++ {
+					res := run(i, nLight, cases[i], shared[i])
+					for k := range res {
+						if res[k] != base[i][k] {
+							report("concurrent-result-differs(same-case)", i, k, res[k], base[i][k])
+						}
+					}
+				}
+			}()
+		}
+		close(start)
+		wg2.Wait()
+		if d := time.Since(tc); d > 3*time.Second {
+			fmt.Fprintf(os.Stderr, "slow contended case %d (%d bytes): %v\n", i, len(cases[i].q), d)
+		}
+		calls += 2 * *g
+	}
+	phase("contention")
 	mutated := 0
 	for i, e := range shared {
 		if e != nil && showExpr(e) != snap[i] {
